@@ -52,10 +52,11 @@ OwnClauses(r) ==
             <<"note:drift: observed ownership = transcription", legal => conform>> >>
 
 \* ---- part 2 records (preconditioners built from shuffled rows, reorder / scaled solves)
-\* agreement is judged on the quantised relative difference (millidecades): bitwise, or <= 1e-9 relative
+\* single-threaded: apply() agrees bitwise (every class works on a sorted private copy, so nothing may depend on
+\* the user's row order); several threads: bitwise or <= 1e-12 relative (quantised, millidecades)
 PrecondClauses(r) ==
     <<  <<"built from shuffled rows = built from sorted rows (apply agrees)",
-            r.exc_sorted = r.exc_shuffled /\ (r.exc_sorted = "" => (r.bitwise \/ r.reldiff_md <= -9000))>> >>
+            r.exc_sorted = r.exc_shuffled /\ (r.exc_sorted = "" => (r.bitwise \/ (r.nt > 1 /\ r.reldiff_md <= -12000)))>> >>
 \* true relative residual of the ORIGINAL system (long double) within a decade of the tolerance band
 SolveClauses(r) ==
     <<  <<"solver converged (reported)", r.reported_md <= r.tol_md>>,
@@ -68,6 +69,8 @@ Clauses(r) ==
       [] r.k = "own"     -> OwnClauses(r)
       [] r.k = "precond" -> PrecondClauses(r)
       [] r.k = "solve"   -> SolveClauses(r)
+      [] r.k = "shared"  -> << <<"shared CRS from zero_copy: solver uses the user's arrays, acts like the copying one, arrays intact",
+                                  r.ident /\ r.system_matrix_is_users /\ r.same /\ r.canary>> >>
       [] OTHER           -> << <<"unknown-record", FALSE>> >>
 
 Failed(r) == IF Has(r, "e") THEN (IF r.e = "End" THEN <<>> ELSE <<"recorder:" \o r.e>>)
